@@ -435,7 +435,39 @@ class Check(PropertyCheck):
             step["changed"] = repr(f.get_state()) != before
             seq.append(step)
         obs["seq"] = seq
+        obs["url_tie"] = self._url_real(case)
         return obs
+
+    @staticmethod
+    def _url_inputs(case):
+        """(scheme, host, port, path) as ASCII text, or None when the url transcription tie does not apply"""
+        host, path = unhx(case["host_hex"]), unhx(case["path_hex"])
+        if not host or any(c >= 0x80 for c in host + path): return None
+        return case["scheme"], host.decode("ascii"), case["port"], path.decode("ascii")
+
+    def _url_real(self, case):
+        """the real `mitmproxy.net.http.url.unparse` and how a client reads its authority (harness `_dial`, text level)"""
+        from mitmproxy.net.http import url
+        inp = self._url_inputs(case)
+        if inp is None: return None
+        u = url.unparse(*inp).encode("ascii")
+        # the same reading as Model.C48.dial: authority up to / ? #, bracketed literal or host[:digits] with one colon
+        rest = u.split(b"://", 1)[1] if b"://" in u else None
+        d = "unreadable"
+        if rest is not None:
+            auth = rest
+            for i, ch in enumerate(rest):
+                if ch in b"/?#": auth = rest[:i]; break
+            if auth.startswith(b"["):
+                body, sep, tail = auth[1:].partition(b"]")
+                if sep and tail == b"": d = hx(body) + ":none"
+                elif sep and tail.startswith(b":") and tail[1:].isdigit(): d = hx(body) + ":" + hx(tail[1:])
+            elif auth.count(b":") == 0: d = hx(auth) + ":none"
+            elif auth.count(b":") == 1 and auth.split(b":")[1].isdigit(): d = hx(auth.split(b":")[0]) + ":" + hx(auth.split(b":")[1])
+            else:
+                h0, _, p0 = auth.partition(b":")
+                d = "unreadable"
+        return "url=%s;dial=%s" % (hx(u), d)
 
     # ------------------------------------------------------------------ oracle
     @staticmethod
@@ -785,7 +817,11 @@ class Check(PropertyCheck):
         one = {"curl": f"curl {case['preserve']} {peer} {m} {a['host']} {a['pretty_host']} {case['port']} {a['url']} {a['body']}{hd}",
                "httpie": f"httpie {m} {a['host']} {a['url']} {a['body']}{hd}",
                "raw": "raw " + " ".join(a["line"]) + " " + (a["content"] or "-") + hd}
-        return [one[fmt] for fmt in self._order(case)]
+        lines = [one[fmt] for fmt in self._order(case)]
+        inp = self._url_inputs(case)
+        if inp is not None:
+            lines.append("url %s %s %d %s" % (hx(inp[0].encode()), hx(inp[1].encode()), inp[2], hx(inp[3].encode())))
+        return lines
 
     @staticmethod
     def _show_exec(r, prog_name):
@@ -805,6 +841,7 @@ class Check(PropertyCheck):
             o = step["o"]; prog = "curl" if step["fmt"] == "curl" else "http"
             if o["cmd_hex"] == "error": out.append("error"); continue
             out.append({"cmd": o["cmd_hex"], "sh": self._show_exec(o.get("sh"), prog), "bash": self._show_exec(o.get("bash"), prog)})
+        if obs.get("url_tie") is not None: out.append(obs["url_tie"])
         return out
 
     def model_obs(self, case, replies):
@@ -817,6 +854,7 @@ class Check(PropertyCheck):
             # the harness does not run a here-string under /bin/sh (syntax error there)
             if fmt == "httpie" and v["cmd"] and b" <<< " in unhx(v["cmd"]): v["sh"] = None
             out.append(v)
+        if len(replies) > len(self._order(case)): out.append(replies[-1])      # the `url` transcription line
         return out
 
     def classify(self, case, obs):
